@@ -30,7 +30,8 @@ logging.getLogger("sharepoint2text").addHandler(logging.NullHandler())
 logging.getLogger("pypdf").addHandler(logging.NullHandler())
 import warnings  # noqa: E402
 
-warnings.filterwarnings("ignore", module="openpyxl")  # keep the library's warnings off stderr (lastResort handler)
+warnings.filterwarnings("ignore", module="openpyxl")
+warnings.filterwarnings("ignore", message="Duplicate name")  # keep the library's warnings off stderr (lastResort handler)
 
 
 class HarnessError(Exception):
